@@ -145,6 +145,14 @@ inductive ChildTr (cfg : Cfg α β) (j : Nat) (c : Child β) : Child β → List
       ChildTr cfg j c { c with phase := .exited code } []
   | exit : c.phase = .finished → ChildTr cfg j c { c with phase := .exited (exitCode (cfg.fault j)) } []
 
+theorem childTr_items (cfg : Cfg α β) (j : Nat) (c c' : Child β) (items : List (Nat × List β))
+    (h : ChildTr cfg j c c' items) : ∀ e ∈ items, e.1 = j := by
+  cases h <;> simp
+
+theorem childTr_got (cfg : Cfg α β) (j : Nat) (c c' : Child β) (items : List (Nat × List β))
+    (h : ChildTr cfg j c c' items) : c'.got = c.got := by
+  cases h <;> rfl
+
 theorem childStep_spec (cfg : Cfg α β) (s : State M β) (j : Nat) :
     ((¬ j < cfg.nchild ∨ isExited (s.ws j).phase = true) ∧ childStep cfg s j = s) ∨
     (j < cfg.nchild ∧ ∃ c' items, ChildTr cfg j (s.ws j) c' items ∧ ∃ p',
@@ -886,14 +894,71 @@ theorem clean_child (cfg : Cfg α β) (hnf : ∀ j, cfg.fault j = none) (s : Sta
       · exact h.drain i hm
 
 
-theorem clean_master (cfg : Cfg α β) (s : State (MPhase β) β) (h : Clean cfg s) (hs : Safe cfg s) :
-    Clean cfg (masterStep cfg s) := by
+/-- the part of the fault-free invariant about the exit-code snapshots and the exit codes -/
+structure CleanS (cfg : Cfg α β) (s : State (MPhase β) β) : Prop where
+  snapG : s.m = .gather → s.ended = true →
+    ∃ j < cfg.nchild, (s.ws j).got = none ∧ isExited (s.ws j).phase = true
+  snapD : ∀ j, s.m = .drain j → s.ended = true → isExited (s.ws j).phase = true
+  codes : ∀ j < cfg.nchild, ∀ c, (s.ws j).phase = .exited c → c = 0
+
+theorem cleanS_init (cfg : Cfg α β) : CleanS cfg (init : State (MPhase β) β) := by
+  constructor <;> simp [init, initChild]
+
+theorem snapG_witness (cfg : Cfg α β) (s : State M β) (h : snapG cfg s = true) :
+    ∃ j < cfg.nchild, (s.ws j).got = none ∧ isExited (s.ws j).phase = true := by
+  obtain ⟨j, hj, hp⟩ := (anyTo_iff _ _).mp h
+  simp only [Bool.and_eq_true, Option.isNone_iff_eq_none] at hp
+  exact ⟨j, hj, hp.1, hp.2⟩
+
+theorem childTr_not_exited (cfg : Cfg α β) (j : Nat) (c c' : Child β) (items : List (Nat × List β))
+    (h : ChildTr cfg j c c' items) : isExited c.phase = false := by
+  cases h <;> simp_all [isExited]
+
+/-- without faults no step of the master ends in an error -/
+theorem clean_not_error (cfg : Cfg α β) (hmf : cfg.mfault = none) (s s' : State (MPhase β) β)
+    (h : Clean cfg s) (hc : CleanS cfg s) (hs : Safe cfg s) (htr : MasterTr cfg s s') : s'.m ≠ .error := by
+  cases htr with
+  | ownRaise t x hm hx hmf' => simp [hmf] at hmf'
+  | missing hm hf hrq he =>
+    exfalso
+    obtain ⟨j, hj, hg, hex⟩ := hc.snapG hm he
+    have hp : ∀ t, (s.ws j).phase ≠ .running t := by intro t ht; simp [ht, isExited] at hex
+    rcases h.put j hj hp with ⟨r, hr⟩ | hg'
+    · simp [hrq] at hr
+    · exact hg' hg
+  | logsLost j hm hj hlq he =>
+    exfalso
+    rcases h.sent j hj (Or.inr (hc.snapD j hm he)) with hsn | ⟨_, hne⟩
+    · simp [hlq] at hsn
+    · exact hne hm
+  | badPid j hm hj => exact absurd (h.drain j hm).1 hj
+  | keyError hm hall hz hc' =>
+    exfalso
+    have hfl : filled cfg.nchild s.ws = cfg.nchild := le_antisymm (countTo_le _ _) (hs.join hm)
+    have hall' := countTo_all _ _ (le_of_eq hfl.symm)
+    obtain ⟨r, hr⟩ := collect_isSome cfg.nchild s.ws hall'
+    rw [hfl, hr] at hc'; simp at hc'
+  | badExit hm hall hz =>
+    exfalso
+    have : ¬ ∀ j < cfg.nchild, decide ((s.ws j).phase = .exited 0) = true := by
+      intro hz'; simp [allZero, (allTo_iff _ _).mpr hz'] at hz
+    push Not at this
+    obtain ⟨j, hj, hne⟩ := this
+    cases hph : (s.ws j).phase with
+    | exited c => have := hc.codes j hj c hph; subst this; simp [hph] at hne
+    | _ => have := hall j hj; simp [hph, isExited] at this
+  | _ => simp <;> first | exact h.noerr | simp_all
+
+theorem clean_master (cfg : Cfg α β) (hmf : cfg.mfault = none) (s : State (MPhase β) β) (h : Clean cfg s)
+    (hc : CleanS cfg s) (hs : Safe cfg s) : Clean cfg (masterStep cfg s) := by
   rcases masterStep_spec cfg s with ⟨he, _⟩ | htr
   · rw [he]; exact h
   generalize masterStep cfg s = s' at htr ⊢
+  have hne := fun s'' (htr' : MasterTr cfg s s'') => clean_not_error cfg hmf s s'' h hc hs htr'
   cases htr with
-  | ownTask t x hm hx =>
+  | ownTask t x hm hx _ =>
     exact ⟨h.notPut, h.put, fun j hj hp => by simpa [hm] using h.sent j hj hp, h.nodup, h.inq, by simp, by simp⟩
+  | ownRaise t x hm hx hmf' => exact absurd rfl (hne _ (.ownRaise t x hm hx hmf'))
   | ownEnd t hm hx =>
     exact ⟨h.notPut, h.put, fun j hj hp => by simpa [hm] using h.sent j hj hp, h.nodup, h.inq, by simp, by simp⟩
   | pop j r rest hm hf hrq _ =>
@@ -929,12 +994,8 @@ theorem clean_master (cfg : Cfg α β) (s : State (MPhase β) β) (h : Clean cfg
     · intro i hm'; simp at hm'; subst hm'; simp [hjq.2]
   | blocked hm _ _ =>
     exact ⟨h.notPut, h.put, fun j hj hp => by simpa [hm] using h.sent j hj hp, h.nodup, h.inq, by simp, by simp⟩
-  | missing j hm hf hrq hj hg he =>
-    exfalso
-    have hp : ∀ t, (s.ws j).phase ≠ .running t := by intro t ht; simp [ht, isExited] at he
-    rcases h.put j hj hp with ⟨r, hr⟩ | hg'
-    · simp [hrq] at hr
-    · exact hg' hg
+  | missing hm hf hrq he => exact absurd rfl (hne _ (.missing hm hf hrq he))
+  | resnap hm _ _ _ _ => exact ⟨h.notPut, h.put, h.sent, h.nodup, h.inq, h.drain, h.noerr⟩
   | toJoin hm hf =>
     exact ⟨h.notPut, h.put, fun j hj hp => by simpa [hm] using h.sent j hj hp, h.nodup, h.inq, by simp, by simp⟩
   | sentinel j rest hm hj hlq =>
@@ -975,30 +1036,89 @@ theorem clean_master (cfg : Cfg α β) (s : State (MPhase β) β) (h : Clean cfg
     · intro i hm'; simp only [setChild_ws, setChild_m] at hm' ⊢; split
       · subst_vars; exact h.drain _ hm'
       · exact h.drain i hm'
-  | logsLost j hm hj hlq he =>
-    exfalso
-    rcases h.sent j hj (Or.inr he) with hsn | ⟨_, hne⟩
-    · simp [hlq] at hsn
-    · exact hne hm
+  | logsLost j hm hj hlq he => exact absurd rfl (hne _ (.logsLost j hm hj hlq he))
+  | drainSnap j hm _ _ _ _ => exact ⟨h.notPut, h.put, h.sent, h.nodup, h.inq, h.drain, h.noerr⟩
   | badPid j hm hj => exact absurd (h.drain j hm).1 hj
-  | done r hm hall hc =>
+  | done r hm hall _ hc' =>
     exact ⟨h.notPut, h.put, fun j hj hp => by simpa [hm] using h.sent j hj hp, h.nodup, h.inq, by simp, by simp⟩
-  | keyError hm hall hc =>
-    exfalso
-    have hfl : filled cfg.nchild s.ws = cfg.nchild := le_antisymm (countTo_le _ _) (hs.join hm)
-    have hall' := countTo_all _ _ (le_of_eq hfl.symm)
-    obtain ⟨r, hr⟩ := collect_isSome cfg.nchild s.ws hall'
-    rw [hfl, hr] at hc; simp at hc
+  | keyError hm hall hz hc' => exact absurd rfl (hne _ (.keyError hm hall hz hc'))
+  | badExit hm hall hz => exact absurd rfl (hne _ (.badExit hm hall hz))
 
-theorem clean_run (cfg : Cfg α β) (hnf : ∀ j, cfg.fault j = none) (σ : Nat → Agent) (k : Nat) :
-    Clean cfg (run cfg σ k) := by
+theorem cleanS_child (cfg : Cfg α β) (hnf : ∀ j, cfg.fault j = none) (s : State (MPhase β) β) (j : Nat)
+    (h : CleanS cfg s) : CleanS cfg (childStep cfg s j) := by
+  rcases childStep_spec cfg s j with ⟨_, he⟩ | ⟨hj, c', items, htr, _, he, _⟩
+  · rw [he]; exact h
+  rw [he]
+  have hgot : c'.got = (s.ws j).got := childTr_got cfg _ _ _ _ htr
+  have hne := childTr_not_exited cfg _ _ _ _ htr
+  refine ⟨?_, ?_, ?_⟩
+  · intro hm hen
+    obtain ⟨i, hi, hg, hex⟩ := h.snapG hm hen
+    have hij : i ≠ j := by rintro rfl; simp [hne] at hex
+    exact ⟨i, hi, by simp [hij, hg], by simp [hij, hex]⟩
+  · intro i hm hen
+    have hex := h.snapD i hm hen
+    have hij : i ≠ j := by rintro rfl; simp [hne] at hex
+    simp [hij, hex]
+  · intro i hi c; simp only [setChild_ws]; split
+    · subst_vars
+      cases htr <;> simp_all [exitCode, taskFault, queuedFault, partialFault]
+    · exact h.codes i hi c
+
+theorem cleanS_master (cfg : Cfg α β) (hmf : cfg.mfault = none) (s : State (MPhase β) β) (h : Clean cfg s)
+    (hc : CleanS cfg s) (hs : Safe cfg s) : CleanS cfg (masterStep cfg s) := by
+  rcases masterStep_spec cfg s with ⟨he, _⟩ | htr
+  · rw [he]; exact hc
+  generalize masterStep cfg s = s' at htr ⊢
+  have hne := fun s'' (htr' : MasterTr cfg s s'') => clean_not_error cfg hmf s s'' h hc hs htr'
+  cases htr with
+  | ownTask t x hm hx _ => exact ⟨by simp, by simp, hc.codes⟩
+  | ownRaise t x hm hx hmf' => exact absurd rfl (hne _ (.ownRaise t x hm hx hmf'))
+  | ownEnd t hm hx => exact ⟨fun _ hen => snapG_witness cfg s hen, by simp, hc.codes⟩
+  | pop j r rest hm hf hrq hp =>
+    refine ⟨by simp, ?_, ?_⟩
+    · intro i hi hen; simp at hi; subst hi; simpa using hen
+    · intro i hi c; simp only [setChild_ws]; split
+      · subst_vars; exact hc.codes _ hi c
+      · exact hc.codes i hi c
+  | blocked hm _ _ => exact ⟨by simp, by simp, hc.codes⟩
+  | missing hm hf hrq he => exact absurd rfl (hne _ (.missing hm hf hrq he))
+  | resnap hm _ _ _ hsn => exact ⟨fun _ _ => snapG_witness cfg s hsn, by simp [hm], hc.codes⟩
+  | toJoin hm hf => exact ⟨by simp, by simp, hc.codes⟩
+  | sentinel j rest hm hj hlq =>
+    refine ⟨?_, by simp, ?_⟩
+    · intro _ hen
+      obtain ⟨i, hi, hg, hex⟩ := snapG_witness cfg s hen
+      refine ⟨i, hi, ?_, ?_⟩ <;> (simp only [setChild_ws]; split <;> [(subst_vars; assumption); assumption])
+    · intro i hi c; simp only [setChild_ws]; split
+      · subst_vars; exact hc.codes _ hi c
+      · exact hc.codes i hi c
+  | record j rest hm hj hlq =>
+    refine ⟨by simp [hm], ?_, ?_⟩
+    · intro i hi hen; simp only [setChild_m] at hi; rw [hm] at hi; cases hi
+      simpa using hen
+    · intro i hi c; simp only [setChild_ws]; split
+      · subst_vars; exact hc.codes _ hi c
+      · exact hc.codes i hi c
+  | logsLost j hm hj hlq he => exact absurd rfl (hne _ (.logsLost j hm hj hlq he))
+  | drainSnap j hm _ _ _ hex =>
+    refine ⟨by simp [hm], ?_, hc.codes⟩
+    intro i hi _; rw [hm] at hi; cases hi; exact hex
+  | badPid j hm hj => exact absurd rfl (hne _ (.badPid j hm hj))
+  | done r hm hall hz hc' => exact ⟨by simp, by simp, hc.codes⟩
+  | keyError hm hall hz hc' => exact absurd rfl (hne _ (.keyError hm hall hz hc'))
+  | badExit hm hall hz => exact absurd rfl (hne _ (.badExit hm hall hz))
+
+theorem clean_run (cfg : Cfg α β) (hnf : ∀ j, cfg.fault j = none) (hmf : cfg.mfault = none)
+    (σ : Nat → Agent) (k : Nat) : Clean cfg (run cfg σ k) ∧ CleanS cfg (run cfg σ k) := by
   induction k with
-  | zero => exact clean_init cfg
+  | zero => exact ⟨clean_init cfg, cleanS_init cfg⟩
   | succ k ih =>
     simp only [run, step]
     cases σ k with
-    | master => exact clean_master cfg _ ih (safe_run cfg σ k)
-    | child j => exact clean_child cfg hnf _ j ih
+    | master => exact ⟨clean_master cfg hmf _ ih.1 ih.2 (safe_run cfg σ k),
+                       cleanS_master cfg hmf _ ih.1 ih.2 (safe_run cfg σ k)⟩
+    | child j => exact ⟨clean_child cfg hnf _ j ih.1, cleanS_child cfg hnf _ j ih.2⟩
 
 /-! ### runs with an effective fault never return a result -/
 
@@ -1008,14 +1128,6 @@ structure NoResult (j0 : Nat) (s : State (MPhase β) β) : Prop where
   rq : ∀ r, (j0, r) ∉ s.rq
   notJoin : s.m ≠ .join
   notDone : ∀ r, s.m ≠ .done r
-
-theorem childTr_items (cfg : Cfg α β) (j : Nat) (c c' : Child β) (items : List (Nat × List β))
-    (h : ChildTr cfg j c c' items) : ∀ e ∈ items, e.1 = j := by
-  cases h <;> simp
-
-theorem childTr_got (cfg : Cfg α β) (j : Nat) (c c' : Child β) (items : List (Nat × List β))
-    (h : ChildTr cfg j c c' items) : c'.got = c.got := by
-  cases h <;> rfl
 
 theorem filled_lt_of_none (n : Nat) (ws : Nat → Child β) (j : Nat) (hj : j < n) (h : (ws j).got = none) :
     filled n ws < n := countTo_lt_of n _ j hj (by simp [h])
@@ -1043,15 +1155,18 @@ theorem noResult_master (cfg : Cfg α β) (j0 : Nat) (hj0 : j0 < cfg.nchild) (s 
   rcases masterStep_spec cfg s with ⟨he, _⟩ | htr
   · rw [he]; exact h
   generalize masterStep cfg s = s' at htr ⊢
+  have hstop : NoResult j0 (raiseStop s) := ⟨by simp [h.got], h.rq, by simp, by simp⟩
   cases htr with
-  | ownTask t x hm hx => exact ⟨h.got, h.rq, by simp, by simp⟩
+  | ownTask t x hm hx _ => exact ⟨h.got, h.rq, by simp, by simp⟩
+  | ownRaise t x hm hx _ => exact hstop
   | ownEnd t hm hx => exact ⟨h.got, h.rq, by simp, by simp⟩
   | pop j r rest hm hf hrq _ =>
     have hne : j0 ≠ j := by rintro rfl; exact h.rq r (by simp [hrq])
     refine ⟨by simp [hne, h.got], ?_, by simp, by simp⟩
     intro r' hr'; exact h.rq r' (by simp [hrq, hr'])
   | blocked hm _ _ => exact ⟨h.got, h.rq, by simp, by simp⟩
-  | missing j hm _ _ _ _ _ => exact ⟨h.got, h.rq, by simp, by simp⟩
+  | missing hm _ _ _ => exact hstop
+  | resnap hm _ _ _ _ => exact ⟨h.got, h.rq, h.notJoin, h.notDone⟩
   | toJoin hm hf => exact absurd (filled_lt_of_none _ _ j0 hj0 h.got) hf
   | sentinel j rest hm hj hlq =>
     refine ⟨?_, h.rq, by simp, by simp⟩
@@ -1063,10 +1178,12 @@ theorem noResult_master (cfg : Cfg α β) (j0 : Nat) (hj0 : j0 < cfg.nchild) (s 
     simp only [setChild_ws]; split
     · subst_vars; exact h.got
     · exact h.got
-  | logsLost j hm _ _ _ => exact ⟨h.got, h.rq, by simp, by simp⟩
+  | logsLost j hm _ _ _ => exact hstop
+  | drainSnap j hm _ _ _ _ => exact ⟨h.got, h.rq, h.notJoin, h.notDone⟩
   | badPid j hm _ => exact ⟨h.got, h.rq, by simp, by simp⟩
-  | done r hm _ _ => exact absurd hm h.notJoin
-  | keyError hm _ _ => exact absurd hm h.notJoin
+  | done r hm _ _ _ => exact absurd hm h.notJoin
+  | keyError hm _ _ _ => exact absurd hm h.notJoin
+  | badExit hm _ _ => exact absurd hm h.notJoin
 
 /-! a task fault (the function raises / hard exit at the start of local task `tf`) -/
 
@@ -1128,12 +1245,17 @@ theorem before_child (cfg : Cfg α β) (j0 tf : Nat) (hft : IsTaskFault (cfg.fau
   | sentinelFault code hph hf => exact Or.inr rfl
   | exit hph => exact Or.inr rfl
 
+/-- the master changes the phase of a child only by terminating it (`stop_processes`) -/
 theorem master_phase (cfg : Cfg α β) (s : State (MPhase β) β) (j : Nat) :
-    ((masterStep cfg s).ws j).phase = (s.ws j).phase := by
+    ((masterStep cfg s).ws j).phase = (s.ws j).phase ∨
+    (isExited (s.ws j).phase = false ∧ ((masterStep cfg s).ws j).phase = .exited 143) := by
   rcases masterStep_spec cfg s with ⟨he, _⟩ | htr
-  · rw [he]
+  · rw [he]; exact Or.inl rfl
   generalize masterStep cfg s = s' at htr ⊢
-  cases htr <;> first | rfl | (simp only [setChild_ws]; split <;> [(subst_vars; rfl); rfl])
+  cases htr <;> first
+    | exact Or.inl rfl
+    | exact terminateAll_phase s.ws j
+    | (left; simp only [setChild_ws]; split <;> [(subst_vars; rfl); rfl])
 
 /-! the fault "exit between `rqueue.put` and the log sentinel", result delivered -/
 
@@ -1170,13 +1292,15 @@ theorem noSentinel_master (cfg : Cfg α β) (j0 : Nat) (hj0 : j0 < cfg.nchild) (
   · rw [he]; exact h
   generalize masterStep cfg s = s' at htr ⊢
   have hlq := h.lq
+  have hstop : NoSentinel j0 (raiseStop s) := ⟨by simpa using hlq, Or.inr (Or.inr rfl)⟩
   cases htr with
-  | ownTask t x hm hx =>
+  | ownTask t x hm hx _ =>
     refine ⟨hlq, ?_⟩
     rcases h.m with ⟨hg, _, _⟩ | hd | hd
     · exact Or.inl ⟨hg, by simp, by simp⟩
     · simp [hm] at hd
     · simp [hm] at hd
+  | ownRaise t x hm hx _ => exact hstop
   | ownEnd t hm hx =>
     refine ⟨hlq, ?_⟩
     rcases h.m with ⟨hg, _, _⟩ | hd | hd
@@ -1201,7 +1325,8 @@ theorem noSentinel_master (cfg : Cfg α β) (j0 : Nat) (hj0 : j0 < cfg.nchild) (
     · exact Or.inl ⟨hg, by simp, by simp⟩
     · simp [hm] at hd
     · simp [hm] at hd
-  | missing j hm _ _ _ _ _ => exact ⟨hlq, Or.inr (Or.inr rfl)⟩
+  | missing hm _ _ _ => exact hstop
+  | resnap hm _ _ _ _ => exact ⟨hlq, h.m⟩
   | toJoin hm hf =>
     exfalso
     rcases h.m with ⟨hg, _, _⟩ | hd | hd
@@ -1233,28 +1358,104 @@ theorem noSentinel_master (cfg : Cfg α β) (j0 : Nat) (hj0 : j0 < cfg.nchild) (
       show (((setChild s j { s.ws j with lq := rest }).ws j0).got = none ∧ s.m ≠ .join ∧ ∀ r, s.m ≠ .done r) ∨
         s.m = .drain j0 ∨ s.m = .error
       rw [hg]; exact h.m
-  | logsLost j hm _ _ _ => exact ⟨hlq, Or.inr (Or.inr rfl)⟩
+  | logsLost j hm _ _ _ => exact hstop
+  | drainSnap j hm _ _ _ _ => exact ⟨hlq, h.m⟩
   | badPid j hm _ => exact ⟨hlq, Or.inr (Or.inr rfl)⟩
-  | done r hm _ _ =>
+  | done r hm _ _ _ =>
     exfalso
     rcases h.m with ⟨_, hnj, _⟩ | hd | hd
     · exact hnj hm
     · simp [hm] at hd
     · simp [hm] at hd
-  | keyError hm _ _ => exact ⟨hlq, Or.inr (Or.inr rfl)⟩
+  | keyError hm _ _ _ => exact ⟨hlq, Or.inr (Or.inr rfl)⟩
+  | badExit hm _ _ => exact ⟨hlq, Or.inr (Or.inr rfl)⟩
 
 /-- a fault that actually happens: the child has a task fault at one of its tasks, or it dies after
 its result was queued -/
 def Effective (cfg : Cfg α β) (j : Nat) : Prop :=
   j < cfg.nchild ∧
   ((∃ tf, IsTaskFault (cfg.fault j) tf ∧ tf < (cfg.chunk (j+1)).length) ∨
-   ∃ c b, cfg.fault j = some (.exitQueued c b))
+   (∃ c b, cfg.fault j = some (.exitQueued c b)) ∨
+   ∃ c, c ≠ 0 ∧ cfg.fault j = some (.exitAfterSentinel c))
+
+/-- the function raises in the master process at one of the master's tasks -/
+def MasterFault (cfg : Cfg α β) : Prop := ∃ t, cfg.mfault = some t ∧ t < (cfg.chunk 0).length
+
+theorem before_master (cfg : Cfg α β) (s : State (MPhase β) β) (j tf : Nat) (hb : Before tf (s.ws j).phase) :
+    Before tf ((masterStep cfg s).ws j).phase := by
+  rcases master_phase cfg s j with h | ⟨_, h⟩
+  · rw [h]; exact hb
+  · rw [h]; exact Or.inr rfl
+
+/-! a child that dies with a non-zero exit code after the sentinel never has exit code 0 -/
+
+theorem notZero_child (cfg : Cfg α β) (j0 c : Nat) (hc : c ≠ 0) (hft : cfg.fault j0 = some (.exitAfterSentinel c))
+    (s : State (MPhase β) β) (j : Nat) (h : (s.ws j0).phase ≠ .exited 0) :
+    ((childStep cfg s j).ws j0).phase ≠ .exited 0 := by
+  rcases childStep_spec cfg s j with ⟨_, he⟩ | ⟨hj, c', items, htr, _, he, _⟩
+  · rw [he]; exact h
+  rw [he]
+  simp only [setChild_ws]
+  split
+  swap
+  · exact h
+  rename_i hjj; subst hjj
+  cases htr <;> simp_all [exitCode, taskFault, queuedFault, partialFault]
+
+theorem notZero_master (cfg : Cfg α β) (j0 : Nat) (s : State (MPhase β) β) (h : (s.ws j0).phase ≠ .exited 0) :
+    ((masterStep cfg s).ws j0).phase ≠ .exited 0 := by
+  rcases master_phase cfg s j0 with h' | ⟨_, h'⟩
+  · rw [h']; exact h
+  · rw [h']; simp
+
+theorem notZero_notDone (cfg : Cfg α β) (j0 : Nat) (hj0 : j0 < cfg.nchild) (s : State (MPhase β) β)
+    (h : (s.ws j0).phase ≠ .exited 0) (hm : ∀ r, s.m ≠ .done r) : ∀ r, (masterStep cfg s).m ≠ .done r := by
+  rcases masterStep_spec cfg s with ⟨he, _⟩ | htr
+  · rw [he]; exact hm
+  generalize masterStep cfg s = s' at htr ⊢
+  cases htr with
+  | done r hm' hall hz hc =>
+    exfalso
+    have := (allTo_iff _ _).mp hz j0 hj0
+    simp at this; exact h this
+  | record j rest hm' hj hlq => exact hm
+  | resnap hm' _ _ _ _ => exact hm
+  | drainSnap j hm' _ _ _ _ => exact hm
+  | _ => simp
+
+/-! the function raises in the master: the master never leaves its own chunk except with the error -/
+
+def MBefore (t : Nat) (m : MPhase β) : Prop := (∃ t', m = .own t' ∧ t' ≤ t) ∨ m = .error
+
+theorem mbefore_master (cfg : Cfg α β) (t : Nat) (hmf : cfg.mfault = some t) (ht : t < (cfg.chunk 0).length)
+    (s : State (MPhase β) β) (h : MBefore t s.m) : MBefore t (masterStep cfg s).m := by
+  rcases masterStep_spec cfg s with ⟨he, _⟩ | htr
+  · rw [he]; exact h
+  generalize masterStep cfg s = s' at htr ⊢
+  rcases h with ⟨t', hm, hle⟩ | hm
+  · cases htr with
+    | ownTask t'' x hm' hx hne =>
+      rw [hm] at hm'; cases hm'
+      have : t' ≠ t := by rintro rfl; exact hne hmf
+      exact Or.inl ⟨t'+1, rfl, by omega⟩
+    | ownRaise t'' x hm' hx _ => exact Or.inr rfl
+    | ownEnd t'' hm' hx =>
+      rw [hm] at hm'; cases hm'
+      have : (cfg.chunk 0).length ≤ t' := by simpa using hx
+      omega
+    | _ => simp_all
+  · cases htr <;> simp_all
+
+theorem mbefore_child (cfg : Cfg α β) (s : State (MPhase β) β) (j : Nat) : (childStep cfg s j).m = s.m := by
+  rcases childStep_spec cfg s j with ⟨_, he⟩ | ⟨_, c', items, _, _, he, _⟩
+  · rw [he]
+  · rw [he]; rfl
 
 /-- with an effective fault no schedule leads to a returned result -/
 theorem never_done (cfg : Cfg α β) (j0 : Nat) (heff : Effective cfg j0) (σ : Nat → Agent) (k : Nat) :
     ∀ r, (run cfg σ k).m ≠ .done r := by
   obtain ⟨hj0, hkind⟩ := heff
-  rcases hkind with ⟨tf, hft, htf⟩ | ⟨c, b, hft⟩
+  rcases hkind with ⟨tf, hft, htf⟩ | ⟨c, b, hft⟩ | ⟨c, hc0, hft⟩
   · -- task fault
     have : NoResult j0 (run cfg σ k) ∧ Before tf ((run cfg σ k).ws j0).phase := by
       induction k with
@@ -1264,7 +1465,7 @@ theorem never_done (cfg : Cfg α β) (j0 : Nat) (heff : Effective cfg j0) (σ : 
         simp only [run, step]
         cases σ k with
         | master =>
-          exact ⟨noResult_master cfg j0 hj0 _ ih.1, by rw [master_phase]; exact ih.2⟩
+          exact ⟨noResult_master cfg j0 hj0 _ ih.1, before_master cfg _ j0 tf ih.2⟩
         | child j =>
           exact ⟨noResult_child cfg j0 _ j ih.1 (before_noPut cfg j0 tf _ htf ih.2),
                  before_child cfg j0 tf hft htf _ j ih.2⟩
@@ -1299,6 +1500,31 @@ theorem never_done (cfg : Cfg α β) (j0 : Nat) (heff : Effective cfg j0) (σ : 
       · exact hnd r hr
       · rw [hr] at hd; cases hd
       · rw [hr] at hd; cases hd
+  · -- death after the sentinel with a non-zero exit code
+    have : ((run cfg σ k).ws j0).phase ≠ .exited 0 ∧ ∀ r, (run cfg σ k).m ≠ .done r := by
+      induction k with
+      | zero => exact ⟨by simp [run, init, initChild], by simp [run, init]⟩
+      | succ k ih =>
+        simp only [run, step]
+        cases σ k with
+        | master => exact ⟨notZero_master cfg j0 _ ih.1, notZero_notDone cfg j0 hj0 _ ih.1 ih.2⟩
+        | child j => exact ⟨notZero_child cfg j0 c hc0 hft _ j ih.1, by rw [mbefore_child]; exact ih.2⟩
+    exact this.2
+
+/-- if the function raises in the master no schedule leads to a returned result -/
+theorem never_done_master (cfg : Cfg α β) (hmf : MasterFault cfg) (σ : Nat → Agent) (k : Nat) :
+    ∀ r, (run cfg σ k).m ≠ .done r := by
+  obtain ⟨t, hmf, ht⟩ := hmf
+  have : MBefore t (run cfg σ k).m := by
+    induction k with
+    | zero => exact Or.inl ⟨0, rfl, Nat.zero_le _⟩
+    | succ k ih =>
+      simp only [run, step]
+      cases σ k with
+      | master => exact mbefore_master cfg t hmf ht _ ih
+      | child j => rw [mbefore_child]; exact ih
+  intro r hr
+  rcases this with ⟨t', hm, _⟩ | hm <;> rw [hr] at hm <;> cases hm
 
 /-! ### schedules `sched pre n` are fair -/
 
@@ -1444,5 +1670,63 @@ def cfgPartial : Cfg Nat Nat :=
   mkCfg (fun _ _ x => x) [0, 1, 2, 3] 2 (fun j => if j = 0 then some (.exitQueuedPartial 3) else none) false
 
 theorem partial_recv : (run cfgPartial (sched [] 1) 10).m = .recv := by decide
+
+/-! ### `stop_processes`: when `parallelize` raises, no child is left behind -/
+
+theorem orphans_master (cfg : Cfg α β) (s : State (MPhase β) β) (hs : Safe cfg s)
+    (h : s.m = .error → ∀ j < cfg.nchild, isExited (s.ws j).phase = true) :
+    (masterStep cfg s).m = .error → ∀ j < cfg.nchild, isExited ((masterStep cfg s).ws j).phase = true := by
+  rcases masterStep_spec cfg s with ⟨he, _⟩ | htr
+  · rw [he]; exact h
+  generalize masterStep cfg s = s' at htr ⊢
+  cases htr with
+  | ownRaise t x hm hx _ => intro _ j _; simp
+  | missing hm _ _ _ => intro _ j _; simp
+  | logsLost j hm _ _ _ => intro _ i _; simp
+  | badPid j hm hj => exact absurd (hs.drainlt j hm) hj
+  | keyError hm hall hz hc' =>
+    exfalso
+    have hfl : filled cfg.nchild s.ws = cfg.nchild := le_antisymm (countTo_le _ _) (hs.join hm)
+    have hall' := countTo_all _ _ (le_of_eq hfl.symm)
+    obtain ⟨r, hr⟩ := collect_isSome cfg.nchild s.ws hall'
+    rw [hfl, hr] at hc'; simp at hc'
+  | badExit hm hall hz => intro _; exact hall
+  | record j rest hm hj hlq => intro he; simp [hm] at he
+  | resnap hm _ _ _ _ => intro he; simp [hm] at he
+  | drainSnap j hm _ _ _ _ => intro he; simp [hm] at he
+  | _ => intro he; simp at he
+
+theorem orphans_child (cfg : Cfg α β) (s : State (MPhase β) β) (j : Nat)
+    (h : s.m = .error → ∀ j < cfg.nchild, isExited (s.ws j).phase = true) :
+    (childStep cfg s j).m = .error → ∀ i < cfg.nchild, isExited ((childStep cfg s j).ws i).phase = true := by
+  rcases childStep_spec cfg s j with ⟨_, he⟩ | ⟨hj, c', items, htr, _, he, _⟩
+  · rw [he]; exact h
+  · rw [he]; intro hm
+    have := h hm j hj
+    simp [childTr_not_exited cfg _ _ _ _ htr] at this
+
+/-- **no orphans**: in every state in which `parallelize` has raised, every child has terminated;
+the accidental exits (`KeyError` in the concatenation, a pid out of range) are unreachable -/
+theorem error_no_orphans (cfg : Cfg α β) (σ : Nat → Agent) (k : Nat) :
+    (run cfg σ k).m = .error → ∀ j < cfg.nchild, isExited ((run cfg σ k).ws j).phase = true := by
+  induction k with
+  | zero => intro h; simp [run, init] at h
+  | succ k ih =>
+    simp only [run, step]
+    cases σ k with
+    | master => exact orphans_master cfg _ (safe_run cfg σ k) ih
+    | child j => exact orphans_child cfg _ j ih
+
+/-! ### the exit codes looked at *after* `queue.Empty`: a fault-free run can end with an error -/
+
+/-- 2 processes, 2 tasks, no fault -/
+def cfgNoFault : Cfg Nat Nat := mkCfg (fun _ _ x => x) [0, 1] 2 (fun _ => none) false
+
+/-- the master finds the queue empty, then the child delivers everything and exits, then the master
+looks at the exit codes -/
+def preSwapped : List Agent :=
+  [.master, .master, .master, .child 0, .child 0, .child 0, .child 0, .master]
+
+theorem swapped_error : (Swapped.run cfgNoFault (sched preSwapped 1) 8).m = .error := by decide
 
 end Par
